@@ -165,7 +165,7 @@ func instrumentFile(name string, src []byte, dense bool) ([]byte, []string, erro
 	if r.usesNet {
 		addImport(f, "simnet", "verifsim/simnet")
 	}
-	keep := map[string]string{"sync": "sync.Locker", "net": "net.Addr", "crypto/tls": "*tls.Config", "github.com/gorilla/websocket": "*websocket.Conn", "time": "time.Duration"}
+	keep := map[string]string{"context": "context.Context", "sync": "sync.Locker", "net": "net.Addr", "crypto/tls": "*tls.Config", "github.com/gorilla/websocket": "*websocket.Conn", "time": "time.Duration"}
 	for local, path := range r.imports {
 		if typ, ok := keep[path]; ok {
 			typ = strings.Replace(typ, filepath.Base(path)+".", local+".", 1)
@@ -272,6 +272,10 @@ func (r *rw) rewriteSelectors(f *ast.File) {
 				r.usesRT = true
 			case r.pkgIs(x.X, "sync") && (x.Sel.Name == "OnceFunc" || x.Sel.Name == "OnceValue" || x.Sel.Name == "OnceValues"):
 				r.err = fmt.Errorf("unsupported synchronisation helper sync.%s", x.Sel.Name)
+			case r.pkgIs(x.X, "context") && (x.Sel.Name == "WithTimeout" || x.Sel.Name == "WithDeadline"):
+				// deadline expiry becomes a task the scheduler orders against whatever else wakes at that instant
+				x.X = ast.NewIdent("simrt")
+				r.usesRT = true
 			case r.pkgIs(x.X, "net") && x.Sel.Name == "TCPConn":
 				// code that reaches for the concrete TCP connection (CloseWrite, SetLinger, ...) gets the simulated one
 				x.X = ast.NewIdent("simnet")
